@@ -12,11 +12,11 @@ EXTENDS Ontology, IOUtils
  ***************************************************************************************************)
 Traces == ndJsonDeserialize(IOEnv.TRACE_FILE)
 VARIABLES tid, l, cur, verdict
-tvars == <<asserted, edges, steps, h, tid, l, cur, verdict>>
+tvars == <<asserted, edges, steps, h, gone, tid, l, cur, verdict>>
 Ev == Traces[tid].ev
 E == Ev[l]
 TInit == /\ tid \in 1..Len(Traces) /\ l = 1 /\ cur = <<>> /\ verdict = "ok"
-         /\ asserted = {} /\ edges = {} /\ steps = 0 /\ h = <<>>
+         /\ asserted = {} /\ edges = {} /\ steps = 0 /\ h = <<>> /\ gone = {}
 Reject(v) == verdict' = v /\ UNCHANGED <<asserted, edges, cur>>
 TAssert == /\ E.a = "assert"
            /\ cur' = <<E.p, E.s, E.t>> /\ asserted' = asserted \cup {<<E.p, E.s, E.t>>}
@@ -36,7 +36,7 @@ TQuiescent == /\ E.a = "quiescent"
                  ELSE Reject("prop:C15 facts beyond the closure at quiescence")
 TNext == /\ verdict = "ok" /\ l <= Len(Ev)
          /\ (TAssert \/ TRel \/ TQuiescent)
-         /\ l' = l + 1 /\ UNCHANGED <<tid, steps, h>>
+         /\ l' = l + 1 /\ UNCHANGED <<tid, steps, h, gone>>
 TSpec == TInit /\ [][TNext]_tvars
 Report == IF verdict # "ok" THEN PrintT(ToJson([t |-> Traces[tid].name, v |-> verdict, at |-> l - 1]))
           ELSE IF l = Len(Ev) + 1 THEN PrintT(ToJson([t |-> Traces[tid].name, v |-> "accepted", at |-> Len(Ev)])) ELSE TRUE
